@@ -355,7 +355,7 @@ func (m *Monitor) onBecomeLeader(n *Node, st raft.BasicStatus, base uint64, ents
 // C06 (a)(c), and recording of the committed map
 func (m *Monitor) onCommitAdvance(n *Node, st raft.BasicStatus, old uint64, base uint64, ents []*pb.Entry) {
 	c := st.GetCommit()
-	for i := max(old, base) + 1; i <= c; i++ {
+	for i := max(old, base) + 1; i <= c && i <= base+uint64(len(ents)); i++ {
 		e := entryAt(base, ents, i)
 		if e == nil {
 			continue
@@ -757,7 +757,7 @@ func (m *Monitor) snapshotCtx(n *Node) {
 }
 
 func (m *Monitor) hasUnappliedCommittedCC(n *Node, st raft.BasicStatus, base uint64, ents []*pb.Entry) bool {
-	for i := st.Applied + 1; i <= st.GetCommit(); i++ {
+	for i := max(st.Applied, base) + 1; i <= st.GetCommit() && i <= base+uint64(len(ents)); i++ {
 		if e := entryAt(base, ents, i); e != nil && (e.GetType() == pb.EntryConfChange || e.GetType() == pb.EntryConfChangeV2) {
 			return true
 		}
@@ -1224,7 +1224,7 @@ func (m *Monitor) checkUncommitted(n *Node, s uint64, err error) {
 	}
 	base, ents := n.RN.VerifLogicalLog()
 	own := uint64(0) // payload bytes of own-term entries above the commit index, after the call
-	for i := st.GetCommit() + 1; i <= base+uint64(len(ents)); i++ {
+	for i := max(st.GetCommit(), base) + 1; i <= base+uint64(len(ents)); i++ {
 		if e := entryAt(base, ents, i); e != nil && e.GetTerm() == st.GetTerm() {
 			own += uint64(len(e.GetData()))
 		}
@@ -1287,7 +1287,7 @@ func (m *Monitor) checkPendingConf(n *Node) {
 	base, ents := n.RN.VerifLogicalLog()
 	cnt := 0
 	var idx []uint64
-	for i := st.Applied + 1; i <= base+uint64(len(ents)); i++ {
+	for i := max(st.Applied, base) + 1; i <= base+uint64(len(ents)); i++ {
 		if e := entryAt(base, ents, i); e != nil && (e.GetType() == pb.EntryConfChange || e.GetType() == pb.EntryConfChangeV2) {
 			cnt++
 			idx = append(idx, i)
@@ -1370,8 +1370,25 @@ func (m *Monitor) onConfApplied(n *Node, e *pb.Entry, cs *pb.ConfState) {
 	}
 	ob := m.o(n)
 	ob.lastConfCh = ob.leaderTick
-	if pv := n.confAtIndex(e.GetIndex() - 1); pv != nil && len(pv.GetVoters()) == 2 && len(cs.GetVoters()) < 2 {
-		m.c.Stats["two_voter_shrink"]++
+	// the documented exception of C15: a voter leaves a two-voter set (all voters of the configuration, both
+	// halves of a joint one: replacing the only voter through {new}&&{old} is the same situation)
+	if pv := n.confAtIndex(e.GetIndex() - 1); pv != nil {
+		all := func(c *pb.ConfState) map[uint64]bool {
+			s := map[uint64]bool{}
+			for _, id := range c.GetVoters() {
+				s[id] = true
+			}
+			for _, id := range c.GetVotersOutgoing() {
+				s[id] = true
+			}
+			return s
+		}
+		before, after := all(pv), all(cs)
+		if len(before) == 2 && len(after) < 2 {
+			m.c.Stats["two_voter_shrink"]++
+		} else if len(pv.GetVoters()) == 2 && len(cs.GetVoters()) < 2 {
+			m.c.Stats["two_voter_shrink"]++
+		}
 	}
 	// (a) the configuration after applying index i is the fold of the committed conf changes
 	prev := n.confAtIndex(e.GetIndex() - 1)
